@@ -29,7 +29,7 @@ use tensor_blob::{BlobConfig, BlobStore};
 use tensor_checkpoint::{
     CheckpointConfig, CheckpointMetadata, CheckpointState, CheckpointStorage, RetentionManager,
 };
-use tensor_store::{ScalarValue, TensorData, TensorStore, TensorValue};
+use tensor_store::{EmbeddingSlab, EntityId, ScalarValue, TensorData, TensorStore, TensorValue};
 use vector_engine::{HNSWConfig, VectorError};
 
 const EMB_DIM: usize = 384; // SlabRouterConfig::default().embedding_dim
@@ -1406,6 +1406,110 @@ fn stream_store_raw(ctx: &mut Ctx, m: &mut Model, rng: &Rng, cases: usize) {
     }
 }
 
+const SLAB_DIM: usize = 4;
+
+fn slab_vec(v: i64) -> Vec<f32> {
+    vec![v as f32, 1.0, 0.0, 0.0]
+}
+
+/// every (entity:vector) the real slab answers, entities 0..16, by entity
+fn slab_image(slab: &EmbeddingSlab) -> String {
+    let mut out = vec![];
+    for e in 0..16u64 {
+        if let Some(v) = slab.get(EntityId::new(e)) {
+            if v.len() == SLAB_DIM && v[1] == 1.0 && v[2] == 0.0 && v[3] == 0.0 && v[0] == v[0].trunc() {
+                out.push(format!("{e}:{}", v[0] as i64));
+            } else {
+                out.push(format!("{e}:?{v:?}"));
+            }
+        }
+    }
+    out.join(",")
+}
+
+/// the slot allocator of `EmbeddingSlab` (what `restore_from_bytes` = clear + re-put runs on):
+/// set / delete / clear / compact / snapshot+restore on a bare slab against the slot-level model,
+/// with a harness-side last-write oracle (entity -> vector) evaluated on the real slab alone
+fn stream_slab(ctx: &mut Ctx, m: &mut Model, rng: &Rng, cases: usize) {
+    let mut r = rng.fork("slab");
+    let directed: Vec<Vec<&str>> = vec![
+        // the shape of a rollback after a delete: freed slot, clear, restore of two vectors
+        vec!["set 1 10", "set 2 20", "del 1", "clear", "set 4 44", "set 5 55"],
+        vec!["set 1 10", "set 2 20", "set 3 30", "del 1", "del 2", "compact", "set 4 44", "set 5 55", "set 6 66"],
+        vec!["set 1 10", "set 2 20", "del 1", "reload", "set 4 44", "set 5 55", "del 4", "clear", "set 6 1", "set 7 2", "set 8 3"],
+    ];
+    let n_dir = directed.len();
+    for case in 0..(n_dir + cases) {
+        let mut slab = EmbeddingSlab::new(SLAB_DIM, 1 + r.below(3) as usize);
+        m.ask("sl reset");
+        let mut want: BTreeMap<u64, i64> = BTreeMap::new();
+        let mut trace: Vec<String> = vec![];
+        let len = if case < n_dir { directed[case].len() } else { 8 + r.below(40) as usize };
+        let mut agreed = true;
+        for i in 0..len {
+            let line = if case < n_dir {
+                directed[case][i].to_string()
+            } else {
+                match r.below(20) {
+                    0..=9 => format!("set {} {}", r.below(8), r.range(-9, 10)),
+                    10..=14 => format!("del {}", r.below(8)),
+                    15..=16 => "clear".to_string(),
+                    17..=18 => "compact".to_string(),
+                    _ => "reload".to_string(),
+                }
+            };
+            let w: Vec<&str> = line.split(' ').collect();
+            ctx.rep.hit(&format!("slab:{}", w[0]));
+            match w[0] {
+                "set" => {
+                    let (e, v): (u64, i64) = (w[1].parse().unwrap(), w[2].parse().unwrap());
+                    if slab.set(EntityId::new(e), &slab_vec(v)).is_ok() {
+                        want.insert(e, v);
+                    }
+                }
+                "del" => {
+                    let e: u64 = w[1].parse().unwrap();
+                    let had = slab.delete(EntityId::new(e));
+                    if had != want.remove(&e).is_some() {
+                        ctx.violation("tensor_store.embedding_slab/delete_answer", "delete answered the opposite of whether the entity had a vector", json!({"ops": trace.clone(), "op": line}));
+                    }
+                }
+                "clear" => {
+                    slab.clear();
+                    want.clear();
+                }
+                "compact" => {
+                    if let Err(e) = slab.compact() {
+                        ctx.violation("tensor_store.embedding_slab/compact_failed", &format!("{e}"), json!({"ops": trace.clone()}));
+                    }
+                }
+                _ => {
+                    slab = EmbeddingSlab::restore(slab.snapshot());
+                }
+            }
+            trace.push(line.clone());
+            let img = slab_image(&slab);
+            // property oracle on the real slab alone: every entity reads its own last vector
+            let expect = want.iter().map(|(e, v)| format!("{e}:{v}")).collect::<Vec<_>>().join(",");
+            if img != expect || slab.len() != want.len() {
+                ctx.violation(
+                    "tensor_store.embedding_slab/vector_aliased_or_lost",
+                    &format!("the slab answers [{img}] (len {}) where the last writes are [{expect}]: a vector is read through another entity's slot, or lost", slab.len()),
+                    json!({"ops": trace.clone()}),
+                );
+            }
+            let mo = m.ask(&format!("sl {line}"));
+            let tr = trace.clone();
+            if !ctx.rep.compare("slab", || json!({"ops": tr}), &img, &mo) {
+                agreed = false;
+                break;
+            }
+        }
+        let key = trace.join(";");
+        ctx.rep.case("slab", if agreed && !want.is_empty() { Some(&key) } else { None });
+    }
+}
+
 fn raw_image(st: &TensorStore) -> String {
     let mut raw: Vec<(u64, String)> = vec![];
     for key in st.scan("") {
@@ -1437,7 +1541,7 @@ fn main() {
         "op:rcreate", "op:rdrop", "op:rins", "op:rdel", "op:rhidx", "op:rbidx", "op:gnode", "op:gedge", "op:gdeln",
         "op:gdele", "op:vput", "op:vdel", "op:vbuild", "op:kput", "op:kdel", "op:ckpt", "op:rollback",
         "op:ckpt_named", "op:rollback_by_id", "op:ckdel", "op:cktop", "rollback:id_shadowed_by_name",
-        "rollback:by_shared_or_foreign_name",
+        "rollback:by_shared_or_foreign_name", "slab:set", "slab:del", "slab:clear", "slab:compact", "slab:reload",
         "res:ok", "res:id", "res:count", "res:err notfound", "res:err exists", "res:err storage",
         "retention:tie_at_boundary", "retention:incremental", "retention:bulk", "raw:restore",
         "directed:tensor_store.restore_from_bytes/relational_tables_lost",
@@ -1477,6 +1581,8 @@ fn main() {
     mark("retention", &mut laps);
     stream_store_raw(&mut ctx, &mut m, &rng, 150 * scale);
     mark("store_raw", &mut laps);
+    stream_slab(&mut ctx, &mut m, &rng, 60 * scale);
+    mark("slab", &mut laps);
     ctx.rep.note(&format!("stream wall times: {}", laps.join(", ")));
     ctx.rep.note(&format!("harness wall time {:.1}s; model lines {}", t0.elapsed().as_secs_f64(), m.lines));
     ctx.rep.note("created_at of router-made checkpoints is wall-clock seconds and cannot be set from outside: the router stream never lets retention trigger (max 10, ≤5 checkpoints); retention with controlled and tied timestamps is exercised through CheckpointStorage::store + RetentionManager::enforce (what CheckpointManager::create calls) in the manager and retention streams");
